@@ -2,7 +2,6 @@ package main
 
 import (
 	"fmt"
-	"go/ast"
 	"go/constant"
 	"go/token"
 	"go/types"
@@ -19,7 +18,7 @@ func checkC18(w *World, r *Report) {
 		"mandatory/unique semantics through presence chains, nested choices and descendant unique paths on concrete trees",
 		"idempotence and exactness of decoration as equalities over runtime trees (only the mechanisms that make them hold are decided)",
 	}
-	p := w.Pkg("schema")
+	_ = w.Pkg("schema")
 
 	r.Rule("R18.1", "decoration never alters explicit data: the plain data node's fields are written only by its constructor; the decorator builds a fresh slice and writes nothing through the child slice it is given; every existing child is wrapped once, in order", 3)
 	r.guard("R18.1", func() {
@@ -380,27 +379,40 @@ func checkC18(w *World, r *Report) {
 		hd := w.Method("schema", "leaf", "HasDefault")
 		hfd, _ := w.FuncDecl(hd)
 		def := w.Method("schema", "leaf", "Default")
-		viaDefault := len(allCallsTo(p, hfd.Body, def)) == 1
-		direct := false
-		ast.Inspect(hfd.Body, func(x ast.Node) bool {
-			if ce, isC := x.(*ast.CallExpr); isC {
-				if se, isS := ce.Fun.(*ast.SelectorExpr); isS && se.Sel.Name == "Default" && calleeOf(p, ce) != def {
-					direct = true
-				}
+		// both answer "has a default" exactly when the leaf is not mandatory and its type has one
+		hasDefaultIs := func(f *ssa.Function, idx int) string {
+			if f == nil || len(ssaLoops(f)) > 0 {
+				return "not a loop-free function"
 			}
-			return true
-		})
-		dfd, _ := w.FuncDecl(def)
-		suppress := false
-		if len(dfd.Body.List) >= 1 {
-			if is, isIf := dfd.Body.List[0].(*ast.IfStmt); isIf {
-				if ce, isC := ast.Unparen(is.Cond).(*ast.CallExpr); isC {
-					if c := calleeOf(p, ce); c != nil && nm(c) == "Mandatory" {
-						suppress = true
+			sym := NewSym(w)
+			out := pcZ
+			for _, bl := range f.Blocks {
+				ret, ok := bl.Instrs[len(bl.Instrs)-1].(*ssa.Return)
+				if !ok || len(ret.Results) <= idx || bl == f.Recover {
+					continue
+				}
+				out = pcOrF(out, pcAndF(sym.PathCond(f.Blocks[0], bl, nil), sym.Cond(unspill(ret.Results[idx]), nil)))
+			}
+			return pcCompare(out, func(a *pcAtom) string {
+				if a.x == nil && loadedFieldName(a.v) == "mandatory" {
+					return "mandatory"
+				}
+				if c, ok := a.v.(*ssa.Call); ok && a.x == nil {
+					if (c.Call.IsInvoke() && nm(c.Call.Method) == "Mandatory") || (c.Call.StaticCallee() != nil && c.Call.StaticCallee().Name() == "Mandatory") {
+						return "mandatory"
 					}
 				}
-			}
+				if ex, ok := a.v.(*ssa.Extract); ok && ex.Index == 1 {
+					if c, isC := ex.Tuple.(*ssa.Call); isC && c.Call.IsInvoke() && nm(c.Call.Method) == "Default" {
+						return "typedefault"
+					}
+				}
+				return ""
+			}, func(env map[string]bool) bool { return !env["mandatory"] && env["typedefault"] })
 		}
+		whyHas := hasDefaultIs(w.SSAFunc(hd), 0)
+		whyDef := hasDefaultIs(w.SSAFunc(def), 1)
+		viaDefault, direct, suppress := whyHas == "", false, whyDef == ""
 		r.Check(viaDefault && !direct && suppress, "R18.3", "leaf.HasDefault agrees with leaf.Default", hfd.Pos(), "HasDefault = second result of Default(); Default() is empty for a mandatory leaf", "HasDefault no longer goes through leaf.Default (which suppresses a type-inherited default on a mandatory leaf): a mandatory leaf is registered as a default child and decoration invents an empty value for it, hiding the missing-mandatory error")
 	})
 
